@@ -320,6 +320,14 @@ func c10Case(c *vc.Ctx, idx int) {
 		withFee(&signers[2], nil, []string{typ}, signers[0], "next-height")
 		withFee(&signers[3], nil, []string{typ}, signers[0], "none")
 	}
+	// memos that consist of white space only are memos
+	for _, memo := range []string{" ", "\n", "\t \r\n", "\u00a0", "\u2003 "} {
+		memo := memo
+		txs = append(txs, func() (c10Tx, bool) { return build([]string{typ}, signers[0], nil, memo, "none", "valid") })
+		if strings.HasSuffix(typ, "MsgNewEthBlock") {
+			txs = append(txs, func() (c10Tx, bool) { return build([]string{typ}, signers[2], nil, memo, "next-height", "valid") })
+		}
+	}
 	sample := 0
 	for _, mk := range txs {
 		t, ok := mk()
@@ -553,7 +561,7 @@ func shortTypes(tys []string) []string {
 func init() {
 	vc.Register(&vc.Check{
 		ID: "C10", Title: "Only relayer-proposer bridge/relayer messages and the block message can run", Level: "exploration",
-		Rule: "enumeration over the message types the application's interface registry lists at run time (one case per type; cases beyond the number of types repeat with other keys): for the type alone x signer {relayer proposer, another voter, a validator, unknown account} x memo {none, 1 byte} x timeout {none, last height, next height, later} x signature {valid, wrong key, wrong sequence, wrong chain id} (quick: signature variants only on the plain envelope), every ordered pair (type, other type) in one single-signer transaction, two-signer transactions, and fee fields (a fee payer other than the signer = a second required signer, the signer as its own payer, a fee granter; five variants on the block message); " +
+		Rule: "enumeration over the message types the application's interface registry lists at run time (one case per type; cases beyond the number of types repeat with other keys): for the type alone x signer {relayer proposer, another voter, a validator, unknown account} x memo {none, 1 byte; and five white-space-only memos on the plain envelope} x timeout {none, last height, next height, later} x signature {valid, wrong key, wrong sequence, wrong chain id} (quick: signature variants only on the plain envelope), every ordered pair (type, other type) in one single-signer transaction, two-signer transactions, and fee fields (a fee payer other than the signer = a second required signer, the signer as its own payer, a fee granter; five variants on the block message); " +
 			"each transaction goes through CheckTx(new), mempool selection by PrepareProposal, CheckTx(recheck), ProcessProposal behind an honest block message, and FinalizeBlock (forced); admitted = code 0 / selected / ACCEPT / account sequence advanced; oracle from the statement; after the forced block all store hashes (acc too, unless the door was passed) must equal a twin that executed the block without the transaction. Exhaustive over the listed axes for the registered types (thorough tier). Non-trivial = every transaction; distinct = (types, signer, memo, timeout, signature, verdict).",
 		Assume: []string{"messages are built generically: the signer field is set, all other fields are zero", "a timeout equal to the last committed height is not judged in check mode"},
 		Cases:  func(tier string) int { return map[string]int{"quick": 16, "thorough": 32}[tier] },
